@@ -355,6 +355,19 @@ func probeCause(st *stmt, s string) string {
 	if st.Where != "outside" && !seen && hasQid {
 		return "identifier quotes stripped before masking (I/O-denylist normalisation): text inside a quoted identifier is scanned as code"
 	}
+	if hasNested && st.Where != "outside" {
+		// is a nested block comment what makes validation reject? The same statement with
+		// the nested comments replaced by a blank must then be accepted.
+		st2 := stmt{Marker: st.Marker, Where: st.Where, Toks: append([]tok(nil), st.Toks...)}
+		for i := range st2.Toks {
+			if st2.Toks[i].Kind == "cmt" && st2.Toks[i].Style == "nested" && !strings.Contains(st2.Toks[i].Text, st.Marker) {
+				st2.Toks[i].Text = " "
+			}
+		}
+		if api.ValidateSQLRequest(st2.text()) == nil {
+			return "nested block comment: text after the inner */ is treated as code"
+		}
+	}
 	if st.Where == "cmt" && seen {
 		for _, t := range st.Toks {
 			if t.Kind == "cmt" && t.Style == "nested" && strings.Contains(t.Text, st.Marker) {
